@@ -67,6 +67,10 @@ def generate(seed, tier, enlarged=False):
     cases.append({'kind': 'live', 'hist': [['A', [['generate', 'c01', 2, {}]]], ['A', [['generate', 'c02', 2, {}]]],
                                            ['A', [['delete', 'c01']]], ['B', [['generate', 'c03', 0, {}]]]],
                   'director': 'step', 'refresh': [], 'extra': 2, 'slow': False, 'entry': 'parts', 'more': {}})
+    # _move whose source is a nested path: the process table and the published composite after it (the nested-move
+    # stream of C09: Model/Struct.v OpMoveP, consistent_movep)
+    from harness import nestmove
+    cases += [nestmove.gen_case(rng) for _ in range(n // 4)]
     return cases
 
 
@@ -329,6 +333,15 @@ def run(cases, tier='quick', seed=0):
         run_impl, render = staticmethod(live.run_impl), staticmethod(live.render)
         oracle = staticmethod(lambda c, ob, rng: live.oracle_raised(c, ob, rng) + live.oracle_phases(c, ob, rng))
         nontrivial, stat_key = staticmethod(live.nontrivial), staticmethod(live.stat_key)
+    from harness import nestmove, struct
+
+    class Nest:
+        __name__ = 'harness.nestmove'
+        IMPORTS, CHECK_FN, BAD_TERM = struct.IMPORTS, struct.CHECK_FN, struct.BAD_TERM
+        run_impl, oracle = staticmethod(nestmove.run_impl), staticmethod(nestmove.oracle)
+        nontrivial, stat_key = staticmethod(nestmove.nontrivial), staticmethod(nestmove.stat_key)
+        render = staticmethod(nestmove.render)
     return common.merge_streams(cases, [
-        (lambda c: c['kind'] != 'live', lambda cs: common.generic_run(me, cs, seed, shard=40)),
+        (lambda c: c['kind'] == 'nestmove', lambda cs: common.generic_run(Nest, cs, seed, shard=40)),
+        (lambda c: c['kind'] not in ('live', 'nestmove'), lambda cs: common.generic_run(me, cs, seed, shard=40)),
         (lambda c: c['kind'] == 'live', lambda cs: common.generic_run(Live, cs, seed, shard=20))])
